@@ -39,6 +39,12 @@ STRS = numpy.array(["", "a", "bb", "ccc", "dddd", "eeeee", "ffffff", "ggggggg"])
 LIM = F32(1.0e6)
 
 
+def inpl(x):
+    """The formula goes on working in the array an ADD / DIVIDE read gave it."""
+    x += 1
+    return x
+
+
 def num(x):
     """Numeric (float32) view of any value a read can return."""
     if isinstance(x, EnumArray):
@@ -138,13 +144,15 @@ class _ExprCompiler:
             _, var, pref, opt, via = e
             self.n_reads += 1
             per = pref_src(pref)
-            o = "None" if opt is None else {"ADD": "ADD", "DIVIDE": "DIVIDE"}[opt]
+            inplace = bool(opt) and opt.endswith("_INPLACE")
+            o = "None" if opt is None else {"ADD": "ADD", "DIVIDE": "DIVIDE"}[opt.split("_")[0]]
+            w = "inpl" if inplace else ""
             if via is None:
-                return f"num(_f.rd(population, {var!r}, {per}, {o}))"
+                return f"num({w}(_f.rd(population, {var!r}, {per}, {o})))"
             if via[0] == "proj":
-                return f"num(_f.rd(population.{via[1]}, {var!r}, {per}, {o}))"
+                return f"num({w}(_f.rd(population.{via[1]}, {var!r}, {per}, {o})))"
             gk = self.var["entity"]
-            inner = f"num(_f.rd(population.members, {var!r}, {per}, {o}))"
+            inner = f"num({w}(_f.rd(population.members, {var!r}, {per}, {o})))"
             if via[0] == "agg":
                 return f"agg(population, {via[1]!r}, {self.role(gk, via[2])}, {inner})"
             if via[0] == "uniq":
